@@ -227,7 +227,8 @@ def named_jobs(tier):
     import itertools
 
     js = []
-    for names in (("a", "a"), ("a", "b"), ("a", "b", "a"), ("b", "a", "a"), ("a", "a", "b")):
+    # incl. names of glyphs the UFO starts out with: they are in the glyph order before any input is seen
+    for names in (("a", "a"), ("a", "b"), ("a", "b", "a"), ("b", "a", "a"), ("a", "a", "b"), (".notdef", ".notdef"), ("a", ".notdef", ".notdef"), (".space", "a", ".space"), (".notdef", "a")):
         for has_cp in itertools.product((True, False), repeat=len(names)):
             js.append(Job(f"named_inputs[{','.join(names)}|cps {''.join('y' if h else 'n' for h in has_cp)}]", job_named, names=names, has_cp=has_cp))
     return js
